@@ -233,8 +233,8 @@ func NewMsgRedelegate(args []interface{}, denom string) (*stakingtypes.MsgBeginR
 
 	msg := &stakingtypes.MsgBeginRedelegate{
 		DelegatorAddress:    sdk.AccAddress(delegatorAddr.Bytes()).String(), // bech32 formatted
-		ValidatorSrcAddress: validatorSrcAddress,
-		ValidatorDstAddress: validatorDstAddress,
+		ValidatorSrcAddress: canonicalValidatorAddress(validatorSrcAddress),
+		ValidatorDstAddress: canonicalValidatorAddress(validatorDstAddress),
 		Amount: sdk.Coin{
 			Denom:  denom,
 			Amount: math.NewIntFromBigInt(amount),
@@ -277,7 +277,7 @@ func NewMsgCancelUnbondingDelegation(args []interface{}, denom string) (*staking
 
 	msg := &stakingtypes.MsgCancelUnbondingDelegation{
 		DelegatorAddress: sdk.AccAddress(delegatorAddr.Bytes()).String(), // bech32 formatted
-		ValidatorAddress: validatorAddress,
+		ValidatorAddress: canonicalValidatorAddress(validatorAddress),
 		Amount: sdk.Coin{
 			Denom:  denom,
 			Amount: math.NewIntFromBigInt(amount),
@@ -786,7 +786,19 @@ func checkDelegationUndelegationArgs(args []interface{}) (common.Address, string
 		return common.Address{}, "", nil, fmt.Errorf(cmn.ErrInvalidAmount, args[2])
 	}
 
-	return delegatorAddr, validatorAddress, amount, nil
+	return delegatorAddr, canonicalValidatorAddress(validatorAddress), amount, nil
+}
+
+// canonicalValidatorAddress returns the canonical (lower case) bech32 spelling of a validator address.
+// Bech32 also accepts the all upper case spelling, but the allow and deny lists of a StakeAuthorization
+// are matched as strings: the message must carry the spelling the lists use.
+// An address that does not parse is returned as is and refused by the message's ValidateBasic.
+func canonicalValidatorAddress(address string) string {
+	valAddr, err := sdk.ValAddressFromBech32(address)
+	if err != nil {
+		return address
+	}
+	return valAddr.String()
 }
 
 // FormatConsensusPubkey format ConsensusPubkey into a base64 string
